@@ -214,3 +214,14 @@ add("C15",
     "are cross-checked on the real objects and judged against the statement on an __iro__ computed by CPython's own MRO from the current bases.",
     "Guards: G-acyclic, duplicate-free base lists, the root interface is never re-based.",
     "Lean 4 proof (history invariant composing the memo invariant with C02's, dict-update lemma) + differential correspondence + statement oracle on CPython-MRO orders", "6/C15")
+
+add("C06",
+    "Theorem C06_ro (ZI/Props/C06.lean), on the registry model the correspondence validates: after ANY history of registry creations, __bases__ reassignments at any "
+    "level of the chain, rebuild(), register / unregister / subscribe / unsubscribe and lookups that keeps the base graph acyclic, every existing AdapterRegistry's `ro` "
+    "is exactly ro.ro of the CURRENT base graph (run_inv: invariant = ro fresh + the sub-registry table covers every base link; setBases_inv: the cascade into "
+    "sub-registries refreshes every descendant — push_reaches — and nothing else can be stale — roFull_congr); C03_ro_eq_c3 / roFull_valid relate that order to C3. "
+    "The model (both flavours) is compared with both twins on every run, including a world stream with specification changes between a re-basing and the next lookup, "
+    "and every `ro` and answer is judged against C3 of the current base graph.",
+    "stated_not_proved: the generation-checking flavour's snapshot argument (VerifyingAdapterRegistry); for it verifyingChanged_fresh is proved and the oracle judges every observed state. "
+    "Guard: G-acyclic with the size bound the model's recursion fuel stands for (WF).",
+    "Lean 4 proof (history invariant, cascade reachability) + differential correspondence + flat-specification oracle + never-queried-twin stream", "6/C06")
